@@ -203,8 +203,15 @@ def Info.applyMerge (ti : Info) (n : Nat) (res : List Layer) : Info :=
 /-- Meta.Merge(table, n) (outside UpdateState, on a snapshot) -/
 def Info.mergeCompute (ti : Info) (n : Nat) : List Layer := ti.idx.map (·.merge n)
 
-/-- `ti.Indexes[0].Modified()` -/
-def Info.modified (ti : Info) : Bool := !(((ti.idx.headD default).layers.headD FMap.empty).isEmpty)
+/-- Overlay.Modified: the base ixbuf has entries -/
+def Overlay.modified (ov : Overlay) : Bool := !((ov.layers.headD FMap.empty).isEmpty)
+
+/-- the test of Meta.Persist for "this table has unsaved changes": every index (the repaired code,
+fixes/15b) or only `ti.Indexes[0].Modified()` -/
+def Info.modifiedWith (allIdx : Bool) (ti : Info) : Bool :=
+  if allIdx then ti.idx.any (·.modified) else (ti.idx.headD default).modified
+
+def Info.modified (ti : Info) : Bool := ti.modifiedWith Gsu.Gen.Dbphys.persistChecksAllIndexes
 
 /-- Meta.Persist for one table (outside UpdateState) -/
 def Info.persistCompute (ti : Info) : List Bt := ti.idx.map (·.save)
